@@ -15,11 +15,13 @@ import (
 
 type stackStorage[V any] struct {
 	data []V
+	// base is the depth of the stack this storage was derived from, see Stack.Derive
+	base int
 }
 
 func (s *stackStorage[V]) set(n int, v V) {
 	if n == len(s.data) {
-		if n > 10000 {
+		if n+s.base > 10000 {
 			panic("stack overflow; maybe a recursive function does not terminate")
 		}
 		s.data = append(s.data, v)
@@ -51,6 +53,18 @@ func NewStack[V any](v ...V) Stack[V] {
 		storage: &stackStorage[V]{data: v},
 		offs:    0,
 		size:    len(v),
+	}
+}
+
+// Derive creates a new, empty stack which does not share its storage with this
+// stack, so it can be used by another goroutine, but which continues the depth
+// accounting of this stack: the recursion guard also covers calls made via
+// the derived stack.
+func (s Stack[V]) Derive() Stack[V] {
+	return Stack[V]{
+		storage: &stackStorage[V]{data: make([]V, 0, 50), base: s.storage.base + s.offs + s.size},
+		offs:    0,
+		size:    0,
 	}
 }
 
